@@ -474,7 +474,21 @@ func sendTimerDiscipline(c *Ctx, rule string) {
 			if c.Deep {
 				mv = 3
 			}
-			e := &PPA{MaxVisits: mv, NoAuto: true, Inline: func(fr *Frame, call ssa.CallInstruction, callee *ssa.Function) bool { return callee == ssr },
+			// the sender loop may live in a helper of sendStreamingResults (the function that waits on the queue)
+			holdsLoop := func(g *ssa.Function) bool {
+				if g == nil || g.Pkg != sres.Pkg || len(g.Blocks) == 0 || g == sres {
+					return false
+				}
+				for _, ci := range callsIn(g) {
+					if calleeName(ci.Common()) == "(*coalesce.Queue).Next" {
+						return true
+					}
+				}
+				return false
+			}
+			e := &PPA{MaxVisits: mv, NoAuto: true, Inline: func(fr *Frame, call ssa.CallInstruction, callee *ssa.Function) bool {
+				return callee == ssr || (fr.Fn == sres && holdsLoop(callee))
+			},
 				Watch: func(ev *Ev) bool {
 					return isNext(ev) || ev.Label == "call:(*time.Timer).Reset" || ev.Label == "call:(*time.Timer).Stop" || ev.Label == "call:time.NewTimer"
 				}}
